@@ -53,7 +53,11 @@ def run_one(prop, name, check_props, tier):
             r = subprocess.run(["./check", cp, "--tier", tier], cwd=VERIF, capture_output=True, text=True, env=env,
                                timeout=3600)
             lines = [l for l in r.stdout.splitlines() if l.startswith(("VIOLATION", "KNOWN-FINDING", "  what:", cp + " tier"))]
-            res["checks"][cp] = {"exit": r.returncode, "caught": r.returncode == 1 and any(l.startswith("VIOLATION") for l in lines),
+            crashed = "could not be completed on the current tree" in r.stdout and \
+                sum(1 for l in lines if l.startswith("VIOLATION")) <= 1
+            # a harness crash (e.g. coqc killed for lack of memory) is NOT a detection
+            res["checks"][cp] = {"exit": r.returncode, "crashed": crashed,
+                                 "caught": r.returncode == 1 and any(l.startswith("VIOLATION") for l in lines) and not crashed,
                                  "wall_s": round(time.time() - t0, 1), "lines": [l[:400] for l in lines[:12]]}
             shutil.rmtree(scr, ignore_errors=True)
     except subprocess.TimeoutExpired:
@@ -100,7 +104,7 @@ def main():
         subprocess.run(["./check", "--setup"], cwd=VERIF, capture_output=True, text=True)
     for res in out:
         for cp, c in res.get("checks", {}).items():
-            print("%s/%s  check %s: %s (%.0fs)" % (res["property"], res["name"], cp, "CAUGHT" if c["caught"] else "MISSED exit=%d" % c["exit"], c["wall_s"]))
+            print("%s/%s  check %s: %s (%.0fs)" % (res["property"], res["name"], cp, "CAUGHT" if c["caught"] else ("CRASHED (not counted)" if c.get("crashed") else "MISSED exit=%d" % c["exit"]), c["wall_s"]))
         if "error" in res:
             print("%s/%s  ERROR %s" % (res["property"], res["name"], res["error"]))
     return 0
